@@ -15,6 +15,41 @@ fn cap_of(v: &View, a: usize) -> usize {
     }
 }
 
+/// Upper bound of the number of items that can be in actor a's mailbox, or waiting to get in,
+/// just before event `seq`: every tell/stop begun and not failed whose message has not been taken,
+/// every ask begun whose message has not been taken and that did not fail with Send. If this is
+/// below the capacity, a send that begins at `seq` finds a free slot and is accepted at once.
+fn occupancy_ub(v: &View, a: usize, seq: u64) -> usize {
+    let mut n = 0;
+    for o in v.ops.iter().filter(|o| o.a == a && o.b_seq < seq && !o.skipped()) {
+        match &o.kind {
+            OpKind::Send { how, mid, .. } => {
+                let taken = v.handlers.get(mid).map(|h| h[0].b_seq < seq).unwrap_or(false);
+                if taken {
+                    continue;
+                }
+                let ended = o.e_seq.map(|e| e < seq).unwrap_or(false);
+                let gone = if how.is_tell() {
+                    ended && !matches!(o.res, Some(Res::Ok))
+                } else {
+                    ended && matches!(o.res, Some(Res::ErrSend) | Some(Res::Panicked(_)))
+                };
+                if !gone {
+                    n += 1;
+                }
+            }
+            OpKind::Stop => {
+                let ended = o.e_seq.map(|e| e < seq).unwrap_or(false);
+                if !(ended && !matches!(o.res, Some(Res::Ok))) {
+                    n += 1;
+                }
+            }
+            _ => {}
+        }
+    }
+    n
+}
+
 /// seq of the first stop() *call* on actor a (from anyone, any phase)
 fn first_stop_call(v: &View, a: usize) -> Option<u64> {
     v.ops.iter().filter(|o| o.a == a && o.kind == OpKind::Stop && !o.skipped()).map(|o| o.b_seq).min()
@@ -86,7 +121,17 @@ fn c01_abc(v: &View, use_drop: bool) -> Vec<Violation> {
                 (Some(Res::Rep { .. }), false) | (Some(Res::Job(_)), false) | (Some(Res::Ok), false) => true,
                 _ => false,
             };
-            if !accepted || !o.ended_before(limit) {
+            // an ask that gave up (timeout) is still an accepted message if its envelope entered the
+            // mailbox - which is certain when a slot was free at the moment the call began
+            // (single-threaded simulator only: `use_drop` is false on the real-thread engine)
+            let accepted_at_begin = use_drop
+                && !how.is_tell()
+                && !how.is_blocking()
+                && matches!(o.res, Some(Res::ErrTimeout))
+                && o.b_seq < limit
+                && o.b_seq > av.start_begin_seq().unwrap_or(u64::MAX)
+                && occupancy_ub(v, a, o.b_seq) < cap_of(v, a);
+            if !(accepted && o.ended_before(limit)) && !accepted_at_begin {
                 continue;
             }
             let n = v.handled_count(mid);
@@ -96,7 +141,7 @@ fn c01_abc(v: &View, use_drop: bool) -> Vec<Violation> {
                     out.push(viol(
                         "C01",
                         "accepted-never-handled",
-                        format!("{how:?} of message {mid} to actor {a} returned Ok at seq {} (before any stop()/last drop) but was never handled", o.e_seq.unwrap()),
+                        format!("{how:?} of message {mid} to actor {a} returned {:?} at seq {} (accepted before any stop()/last drop) but was never handled", o.res, o.e_seq.unwrap()),
                     ));
                 }
             } else if let Some((sb, _, _)) = av.stop_begin {
